@@ -328,7 +328,7 @@ def _and2(*conds):
 # T2 (bounded): SaveHar.export_har to a real file, then FlowReader on that file
 
 def build_flow(method="GET", url="http://example.com/path?a=1", version="HTTP/1.1", req_headers=(), req_body=b"", status=200, resp_headers=(), resp_raw=b"",
-               marker=None):
+               marker=None, t0=946681200.0):
     """a flow the way mitmproxy's HTTP layers produce it: HTTP/1.1 carries a Host header, HTTP/2 and HTTP/3 the :authority;
     bodies are the raw (content-coded) bytes"""
     from mitmproxy import http
@@ -337,10 +337,10 @@ def build_flow(method="GET", url="http://example.com/path?a=1", version="HTTP/1.
     if method == "CONNECT":
         host, port = url.split(":")
         rq = http.Request(host=host, port=int(port), method=b"CONNECT", scheme=b"", authority=url.encode(), path=b"", http_version=version.encode(),
-                          headers=http.Headers(), content=b"", trailers=None, timestamp_start=946681200.0, timestamp_end=946681201.0)
+                          headers=http.Headers(), content=b"", trailers=None, timestamp_start=t0, timestamp_end=t0 + 1)
     else:
         rq = http.Request.make(method, url, b"", {})
-        rq.timestamp_start, rq.timestamp_end = 946681200.0, 946681201.0
+        rq.timestamp_start, rq.timestamp_end = t0, t0 + 1
         rq.http_version = version
     hs = [(k.encode("utf-8", "surrogateescape"), v.encode("utf-8", "surrogateescape")) if isinstance(k, str) else (k, v) for k, v in req_headers]
     hostport = rq.host if rq.port in (80, 443) else f"{rq.host}:{rq.port}"
@@ -356,7 +356,7 @@ def build_flow(method="GET", url="http://example.com/path?a=1", version="HTTP/1.
     f.request = rq
     rs = http.Response(http_version=version.encode(), status_code=status, reason=b"" if version != "HTTP/1.1" else b"OK",
                        headers=http.Headers([(k.encode("utf-8", "surrogateescape"), v.encode("utf-8", "surrogateescape")) if isinstance(k, str) else (k, v) for k, v in resp_headers]),
-                       content=None, trailers=None, timestamp_start=946681202.0, timestamp_end=946681203.0)
+                       content=None, trailers=None, timestamp_start=t0 + 2, timestamp_end=t0 + 3)
     rs.raw_content = resp_raw
     f.response = rs
     return f
@@ -535,7 +535,7 @@ def bounded(tier, seed):
               "Families: (A) methods x versions x URLs (+CONNECT); (B) request x response header sets x versions; (C) response bodies: texts x content types x charsets x codings, "
               "binary bodies x codings, empty, body-declared charsets (BOM / HTML meta / XML declaration); (D) request bodies likewise for POST/PUT/PATCH; (E) lists of <= 3 flows (order). "
               "distinct = parameter tuple; non-trivial = has a body or >= 2 header fields or a list of >= 2")
-    b.bound = "8 methods x 3 versions x 8 URLs; 6x6 header sets x 3 versions; 4 texts x 6 content types x 7 charsets x 5 codings; 4 binaries x 5 codings; lists <= 3 from a pool of 6"
+    b.bound = "8 methods x 3 versions x 8 URLs; 6x6 header sets x 3 versions; 4 texts x 6 content types x 7 charsets x 5 codings; 4 binaries x 5 codings; lists <= 3 from a pool of 6 x <= 5 orders of the requests' start times"
     b.exhaustive = True
     versions = MITM_VERSIONS
 
@@ -644,19 +644,22 @@ def bounded(tier, seed):
         run(("D", m, "form"), _describe(family="D", method=m, body="urlencoded form"), f)
     # (E) lists <= 3: order
     pool = [
-        lambda i: build_flow("GET", "http://example.com/one", "HTTP/1.1", [], b"", 200, [("Content-Length", "1")], b"1", marker=i),
-        lambda i: build_flow("POST", "https://example.com/two", "HTTP/3", [("Content-Length", "3")], b"x=1", 201, [("Content-Length", "1")], b"2", marker=i),
-        lambda i: build_flow("GET", "http://example.com/one", "HTTP/1.1", [], b"", 404, [("Content-Length", "1")], b"3", marker=i),
-        lambda i: build_flow("PUT", "http://example.com:8080/four", "HTTP/1.1", [("Content-Length", "4")], bytes([0, 255, 1, 254]), 500, [("Content-Type", "image/png"), ("Content-Length", "256")], bytes(range(256)), marker=i),
-        lambda i: build_flow("DELETE", "https://example.com/five?x=1", "HTTP/3", [], b"", 204, [("Content-Length", "0")], b"", marker=i),
-        lambda i: build_flow("CONNECT", "example.com:443", "HTTP/1.1", [], b"", 200, [], b"", marker=i),
+        lambda i, t0: build_flow("GET", "http://example.com/one", "HTTP/1.1", [], b"", 200, [("Content-Length", "1")], b"1", marker=i, t0=t0),
+        lambda i, t0: build_flow("POST", "https://example.com/two", "HTTP/3", [("Content-Length", "3")], b"x=1", 201, [("Content-Length", "1")], b"2", marker=i, t0=t0),
+        lambda i, t0: build_flow("GET", "http://example.com/one", "HTTP/1.1", [], b"", 404, [("Content-Length", "1")], b"3", marker=i, t0=t0),
+        lambda i, t0: build_flow("PUT", "http://example.com:8080/four", "HTTP/1.1", [("Content-Length", "4")], bytes([0, 255, 1, 254]), 500, [("Content-Type", "image/png"), ("Content-Length", "256")], bytes(range(256)), marker=i, t0=t0),
+        lambda i, t0: build_flow("DELETE", "https://example.com/five?x=1", "HTTP/3", [], b"", 204, [("Content-Length", "0")], b"", marker=i, t0=t0),
+        lambda i, t0: build_flow("CONNECT", "example.com:443", "HTTP/1.1", [], b"", 200, [], b"", marker=i, t0=t0),
     ]
     from mitmproxy.test import tflow as _tf
     for n in (0, 1, 2, 3):
-        for idx in itertools.product(range(len(pool)), repeat=n):
-            flows = [pool[j](i) for i, j in enumerate(idx)]
-            inp = _describe(family="E", pool_indices=list(idx))
-            b.case(("E", idx), nontrivial=n >= 2)
+        # start times of the requests, relative: list order is the order of the *list*, whatever the capture times are
+        # (hardump collects flows at response time, a user may export any selection in any order)
+        patterns = {0: [()], 1: [(0,)], 2: [(0, 0), (10, 0), (0, 10)], 3: [(0, 0, 0), (20, 10, 0), (10, 20, 0), (0, 20, 10), (0, 10, 20)]}[n]
+        for idx, offs in itertools.product(itertools.product(range(len(pool)), repeat=n), patterns):
+            flows = [pool[j](i, 946681200.0 + offs[i]) for i, j in enumerate(idx)]
+            inp = _describe(family="E", pool_indices=list(idx), start_time_offsets=list(offs))
+            b.case(("E", idx, offs), nontrivial=n >= 2)
             got, err = export_import(flows)
             if err is not None:
                 b.fail(f"har.{err[0]}_succeeds", inp, f"{type(err[1]).__name__}: {err[1]}")
@@ -670,7 +673,7 @@ def bounded(tier, seed):
                 compare(b, dict(inp, position=i), f, g)
     # non-HTTP flows are skipped by the exporter and do not disturb the order of the HTTP flows
     for pos in range(3):
-        flows = [pool[0](0), pool[1](1)]
+        flows = [pool[0](0, 946681210.0), pool[1](1, 946681200.0)]
         flows.insert(pos, _tf.ttcpflow())
         b.case(("E", "tcp_at", pos))
         got, err = export_import(flows)
